@@ -208,6 +208,17 @@ def fill_points(rng, case):
     for k in chosen[:n]:
         pts.append(to_world(sh, k))
         cls.append("feature")
+    if sh["kind"] == "ellipsoid":
+        # the six poles pushed in and out by 4*tau: where a shortcut that mistakes a nearly spherical
+        # ellipsoid for a sphere of radius radii[0] is wrong by the full difference of the radii
+        for i in range(3):
+            for sg in (-1.0, 1.0):
+                for push in (-4.0, 4.0):
+                    k = [0.0, 0.0, 0.0]
+                    k[i] = sg * (sh["radii"][i] + push * tau)
+                    pts.append(to_world(sh, k))
+                    cls.append("push%+g" % push)
+        n = max(n, len(pts))
     if sh.get("stream") == "exact" and n >= 16:
         # exhaustive small lattice: every operation of model and code is exact on these points, so the
         # booleans must be identical, boundary points included (343 points, k_i in {0, +-1/2, +-1, +-3/2} * extent)
